@@ -58,7 +58,8 @@ Proof.
     + eexists _, _. split; [reflexivity|]. exact W.
   - (* string mode *)
     cbn [is_normal] in W. unfold handle_string_token.
-    destruct (sS s) as [ | | |[|]|[|]| ]; cbn [bind ret].
+    destruct (sS s) as [[|]| | |[|]|[|]| ]; cbn [bind ret].
+    + eexists _, _. split; [reflexivity|]. exact W.
     + eexists _, _. split; [reflexivity|]. exact W.
     + unfold leave_str. cbn [lexer modes]. destruct ms as [|m r]; [discriminate W|].
       destruct m as [|pc|b']; cbn [okstack] in W; crush.
@@ -77,7 +78,8 @@ Proof.
       unfold handle_multistr_token, multistring_mode_data, enter_normal. cbn [lexer modes bind ret].
       eexists _, _. split; [reflexivity|]. unfold wf. cbn. exact W.
     + unfold handle_multistr_token, multistring_mode_data. cbn [lexer modes bind].
-      destruct (sM s) as [ |n|n|n| ].
+      destruct (sM s) as [[|]|n|n|n| ].
+      * eexists _, _. split; [reflexivity|]. exact W.
       * eexists _, _. split; [reflexivity|]. exact W.
       * destruct (pc <? n); [eexists _, _; split; [reflexivity|exact W]|].
         destruct (n =? pc); [|eexists _, _; split; [reflexivity|exact W]].
@@ -138,13 +140,13 @@ Proof. exists {| lexer := CNormal 0; modes := [] |}. eexists. reflexivity. Qed.
 Lemma delim_underflow_without_wf :
   exists s site, next_step init s = Panic site.
 Proof.
-  exists {| sN := NMultiStart 0; sS := SLiteral; sM := MLiteral |}. eexists. reflexivity.
+  exists {| sN := NMultiStart 0; sS := SLiteral false; sM := MLiteral false |}. eexists. reflexivity.
 Qed.
 
 Example sym_wf_example :
-  forallb sym_wf [ {| sN := NMultiStart 3; sS := SLiteral; sM := MLiteral |};
-                   {| sN := NOther; sS := SLiteral; sM := MCandInterp 4 |};
-                   {| sN := NOther; sS := SLiteral; sM := MLiteral |};
-                   {| sN := NRBrace; sS := SLiteral; sM := MLiteral |};
-                   {| sN := NOther; sS := SLiteral; sM := MCandEnd 2 |} ] = true.
+  forallb sym_wf [ {| sN := NMultiStart 3; sS := SLiteral false; sM := MLiteral false |};
+                   {| sN := NOther; sS := SLiteral false; sM := MCandInterp 4 |};
+                   {| sN := NOther; sS := SLiteral false; sM := MLiteral false |};
+                   {| sN := NRBrace; sS := SLiteral false; sM := MLiteral false |};
+                   {| sN := NOther; sS := SLiteral false; sM := MCandEnd 2 |} ] = true.
 Proof. reflexivity. Qed.
